@@ -283,6 +283,16 @@ def field_mutants(data, rng, sec_type=11):
             msg[index] = bytes(item)
         asb['results'][0][0] = (rid, cw.enc(msg))
 
+    if len(tnums) >= 2:
+        # the result of one target is taken away and that target altered: the block no longer vouches for it
+        def drop_and_alter(w, which):
+            edit_asb(w, lambda a: a.update(results=(a['results'][:-1] if which == 'last' else [])))
+            victim = tnums[-1] if which == 'last' else tnums[0]
+            for blk in w['blocks']:
+                if blk['num'] == victim:
+                    blk['data'] = blk['data'] + b'\x07'
+        emit('covered: result of the last target removed and that target altered', lambda w: drop_and_alter(w, 'last'))
+        emit('covered: every result removed and the first target altered', lambda w: drop_and_alter(w, 'all'))
     emit('protected header', lambda w: edit_asb(w, lambda a: flip_in_result(a, 0)))
     emit('tag / signature', lambda w: edit_asb(w, lambda a: flip_in_result(a, 3)))
     emit('security block flags (not in default scope)', lambda w: bib(w).update(flags=bib(w)['flags'] ^ 1))
@@ -407,7 +417,7 @@ def run_case(case):
                         note(judge(mutant, cose, obs, label, location=_locate(pos, covered, outside)), mutant, label)
                 else:
                     for mutant, label in field_mutants(data, rng):
-                        note(judge(mutant, cose, obs, label), mutant, label)
+                        note(judge(mutant, cose, obs, label, location=('covered', label[9:]) if label.startswith('covered: ') else None), mutant, label)
         elif kind == 'scope':
             scope = {(key if key == 'other' else int(key)): val for key, val in case['scope']}
             addl = {99: 7} if case['addl'] else None
@@ -425,7 +435,8 @@ def run_case(case):
             else:
                 note([], data, 'scope %s' % scope)
                 for mutant, label in field_mutants(data, rng):
-                    note(judge(mutant, 'mac0-256', obs, label + ' (scope %s)' % scope), mutant, label)
+                    note(judge(mutant, 'mac0-256', obs, label + ' (scope %s)' % scope,
+                               location=('covered', label[9:]) if label.startswith('covered: ') else None), mutant, label)
                 covered, outside = covered_spans(data)
                 for mutant, label, pos in bit_flips(data, rng, 300):
                     note(judge(mutant, 'mac0-256', obs, label + ' (scope %s)' % scope, location=_locate(pos, covered, outside)), mutant, label)
